@@ -5,7 +5,7 @@
    the token tree it was written from, for each renderer's token sets. *)
 From Coq Require Import ZArith List Bool Lia.
 From Mistletoe Require Import Base.Sx Base.PyStr Base.PyText Gen.GenTables Gen.GenConfig Model.Tree Model.CoreTokens Model.Block Model.Build
-     Model.Parser Proofs.PlainProse Proofs.Prose Proofs.ProseLines Proofs.ListLaw Proofs.FenceLaw Spec.Fragment Proofs.FragmentP Proofs.EmphSimple.
+     Model.Parser Proofs.PlainProse Proofs.Prose Proofs.ProseLines Proofs.ListLaw Proofs.FenceLaw Spec.Fragment Proofs.FragmentP Proofs.EmphSimple Proofs.InertProse.
 Import ListNotations.
 Local Open Scope Z_scope.
 
@@ -94,15 +94,16 @@ Qed.
 
 (* Document(lines) on the spelled text of a tree *)
 Theorem fragment_document cfg t :
-  fragment_config (cfg_block cfg) = true -> prose_spans (cfg_span cfg) = true -> emph_spans (cfg_span cfg) = true -> wf_b t = true ->
+  fragment_config (cfg_block cfg) = true -> prose_spans (cfg_span cfg) = true -> emph_spans (cfg_span cfg) = true ->
+  inert_spans (cfg_span cfg) = true -> wf_b t = true ->
   fst (fst (parse_lines cfg (text_of (spell t)))) = Document [tok_of false t].
 Proof.
-  intros Hc Hq He Hw. pose proof (fuel_suffices t Hw) as Hf.
+  intros Hc Hq He Hi Hw. pose proof (fuel_suffices t Hw) as Hf.
   unfold parse_lines, block_phase.
   destruct (depth_fuel (text_of (spell t))) as [|f] eqn:Ef; [lia|].
   rewrite (fragment_tree_cfg (cfg_block cfg) t f 1 (mkPs true) Hc Hw ltac:(lia)). cbn [fst].
   unfold Build.make_tokens. cbn [flat_map].
-  rewrite (build_fragment (cfg_span cfg) (cfg_keep_defs cfg) _ false Hq He f t 1 ltac:(lia) Hw). reflexivity.
+  rewrite (build_fragment (cfg_span cfg) (cfg_keep_defs cfg) _ false Hq He Hi (footnotes_of_fragment false t 1) f t 1 ltac:(lia) Hw). reflexivity.
 Qed.
 
 Theorem fragment_document_markdown t :
@@ -113,10 +114,10 @@ Proof.
   destruct (depth_fuel (text_of (spell t))) as [|f] eqn:Ef; [lia|].
   rewrite (fragment_tree_markdown t f 1 (mkPs true) Hw ltac:(lia)). cbn [fst].
   unfold Build.make_tokens. cbn [flat_map].
-  rewrite (build_fragment span_types_markdown true _ true eq_refl eq_refl f t 1 ltac:(lia) Hw). reflexivity.
+  rewrite (build_fragment span_types_markdown true _ true eq_refl eq_refl eq_refl (footnotes_of_fragment true t 1) f t 1 ltac:(lia) Hw). reflexivity.
 Qed.
 
 Lemma document_configs :
-  forallb (fun c => fragment_config (cfg_block c) && prose_spans (cfg_span c) && emph_spans (cfg_span c))
+  forallb (fun c => fragment_config (cfg_block c) && prose_spans (cfg_span c) && emph_spans (cfg_span c) && inert_spans (cfg_span c))
           [cfg_html; cfg_html_nohtml; cfg_latex; cfg_mathjax; cfg_default] = true.
 Proof. vm_compute. reflexivity. Qed.
